@@ -267,3 +267,72 @@ def on_every_iteration(cfg, loop, stmts):
         return id(n.stmt if n.kind == "stmt" else n.owner) in inside
 
     return cfg.every_path(first, [ln], lambda n: n in nodes or (n is not ln and not in_loop(n)), "n")[0]
+
+
+def stale_loop_locals(func, loop):
+    """Locals that are bound only inside `loop` (never before it) and can be read in an iteration
+    before anything was bound to them in *that* iteration: the value then comes from an earlier
+    iteration (another record, another channel).  Returns [(name, reading stmt)]."""
+    cfg = cfg_of(func)
+    inside = {id(x) for st in loop.body for x in ast.walk(st)}
+    bound_inside, bound_outside = {}, set()
+    for st in walk_body(func.node):
+        names = []
+        if isinstance(st, (ast.Assign, ast.AnnAssign, ast.AugAssign)):
+            tgs = st.targets if isinstance(st, ast.Assign) else [st.target]
+            for t in tgs:
+                for x in ast.walk(t):
+                    if isinstance(x, ast.Name) and isinstance(x.ctx, ast.Store):
+                        names.append(x.id)
+        elif isinstance(st, (ast.For, ast.AsyncFor)):
+            for x in ast.walk(st.target):
+                if isinstance(x, ast.Name):
+                    names.append(x.id)
+        for nm in names:
+            if id(st) in inside and not isinstance(st, ast.AugAssign):
+                bound_inside.setdefault(nm, []).append(st)
+            elif id(st) not in inside:
+                bound_outside.add(nm)
+    bound_outside |= set(func.params)
+    if isinstance(loop, (ast.For, ast.AsyncFor)):
+        for x in ast.walk(loop.target):
+            if isinstance(x, ast.Name):
+                bound_outside.add(x.id)
+    out = []
+    ln = cfg.node_of(loop)
+    first = cfg.nodes_of(loop.body[0])
+
+    def in_loop(n):
+        return id(n.stmt if n.kind == "stmt" else n.owner) in inside
+
+    for nm, binds in bound_inside.items():
+        if nm in bound_outside:
+            continue
+        bnodes = set()
+        for b in binds:
+            bnodes.update(cfg.nodes_of(b))
+        if any(b in first for b in bnodes):
+            continue
+        reads = []
+        for n in cfg.nodes:
+            if not in_loop(n) or n in bnodes:
+                continue
+            exprs = [n.test] if n.kind == "guard" and n.test is not None else own_exprs(n.stmt) if n.kind == "stmt" and not isinstance(n.stmt, (ast.FunctionDef, ast.ClassDef)) else []
+            for e in exprs:
+                if any(isinstance(x, ast.Name) and x.id == nm and isinstance(x.ctx, ast.Load) for x in ast.walk(e)):
+                    reads.append(n)
+                    break
+        # a binding statement that also reads the name (x = f(x)) counts as a read first
+        for b in binds:
+            val = getattr(b, "value", None)
+            if val is not None and any(isinstance(x, ast.Name) and x.id == nm for x in ast.walk(val)):
+                reads += cfg.nodes_of(b)
+        for r in reads:
+            if r in first and r not in bnodes:
+                out.append((nm, r.stmt if r.kind == "stmt" else r.owner))
+                break
+            ok, _p = cfg.every_path(first, [r], lambda n: n in bnodes or (n is not ln and not in_loop(n)) or n is ln, "n")
+            if not ok and not (r in first):
+                out.append((nm, r.stmt if r.kind == "stmt" else r.owner))
+                break
+    return out
